@@ -44,7 +44,7 @@ func openSession(repo, verif string) (*Session, error) {
 	if err != nil {
 		return nil, err
 	}
-	s.Prelude = string(pre) + "\n" + strings.Join(C.Prelude, "\n")
+	s.Prelude = s.extDecls() + string(pre) + "\n" + strings.Join(C.Prelude, "\n")
 	s.Pure = computePurity(P)
 	fmt.Fprintf(os.Stderr, "govc: loaded %d contracts from %d files, %d functions, in %.1fs\n", len(C.Funcs), len(files), len(P.ByKey), time.Since(t0).Seconds())
 	return s, nil
@@ -757,4 +757,38 @@ func extractParams(model string) string {
 		out = out[:200]
 	}
 	return strings.Join(out, "\n")
+}
+
+// extName is the uninterpreted function symbol that stands for a `functional` external.
+func extName(key string) string { return "ext." + sanitize(key) }
+
+// extDecls declares one uninterpreted function per `functional` external (from its Go signature).
+func (s *Session) extDecls() string {
+	var keys []string
+	for k, ct := range s.C.Funcs {
+		if ct.Functional {
+			keys = append(keys, k)
+		}
+	}
+	sort.Strings(keys)
+	var b strings.Builder
+	for _, k := range keys {
+		fn := s.P.ByKey[k]
+		if fn == nil {
+			continue
+		}
+		sig := fn.Signature
+		if sig.Results().Len() != 1 {
+			continue
+		}
+		var args []string
+		if sig.Recv() != nil {
+			args = append(args, s.S.sortOf(sig.Recv().Type()))
+		}
+		for i := 0; i < sig.Params().Len(); i++ {
+			args = append(args, s.S.sortOf(sig.Params().At(i).Type()))
+		}
+		fmt.Fprintf(&b, "(declare-fun %s (%s) %s)\n", extName(k), strings.Join(args, " "), s.S.sortOf(sig.Results().At(0).Type()))
+	}
+	return b.String()
 }
